@@ -643,13 +643,14 @@ Theorem exprloc_attr_roundtrip : forall (dbg dbg' rdbg : bool) (cx : wcx) (pos n
 Proof. exact exprloc_attr_read_lemma. Qed.
 
 (* (g3) the forward-reference error: while calculate_offsets sizes an Exprloc whose expression embeds, ULEB-encoded, the
-   unit offset of an entry that has no offset yet in the table built so far, AttributeValue::size is
+   unit offset of an entry that has no offset yet in the table built so far (or lies beyond the entries vector),
+   AttributeValue::size is
    Err UnsupportedExpressionForwardReference (call / parameter_ref, fixed width, are exempt at this point) *)
 Theorem exprloc_forward_ref : forall (dbg : bool) (e : encoding) (be : bool) (lpv : N) (uo : OpWr.uoffs)
     (pre : OpWr.wexpr) (o : OpWr.wop) (post : OpWr.wexpr) (en n : N),
   OpWrDec.uses_entry o = Some en -> OpWr.wf_op o = true ->
   match o with OpWr.WoCall _ | OpWr.WoParameterRef _ => False | _ => True end ->
-  OpWr.nth_N (OpWr.uo_entries uo) en = Some 0 ->
+  (OpWr.nth_N (OpWr.uo_entries uo) en = Some 0 \/ OpWr.nth_N (OpWr.uo_entries uo) en = None) ->
   OpWr.size_expr dbg (oenc e be) (Some uo) pre = Ok n ->
   gav_size dbg e be lpv uo (GExpr (pre ++ o :: post)) = Err WUnsupportedExpressionForwardReference.
 Proof. exact exprloc_forward_ref_lemma. Qed.
@@ -681,12 +682,13 @@ Theorem glue_ref_is_mark : forall (dbg : bool) (cx : wcx) (en p : N),
   OpWr.entry_offset dbg (Some (cx_uo cx)) en = Ok (p - wc_unit_off cx).
 Proof. exact entry_offset_mark. Qed.
 
-(* ... and for an arena entry that is not in the written tree the forward-reference error (C15 refs_need_offset: the
-   operation then fails to write) *)
+(* ... and for ANY entry id that is not in the written tree — deleted, orphaned, reserved and never added, inside or
+   beyond the entries vector (gimli fix c42c00d, model corrected in the wrglue follow-up) — the forward-reference error
+   (C15 refs_need_offset: the operation then fails to write) *)
 Theorem glue_ref_orphan : forall (dbg : bool) (e : encoding) (be : bool) (lpv uoff : N) (g : gdie) (st0 st : cst) (en : N),
   gcalc dbg e be lpv uoff g st0 = Ok st ->
   (forall j y, nth_error (cs_entries st0) j = Some y -> y = 0) ->
-  ~ In (N.to_nat en) (gdie_ids g) -> (N.to_nat en < length (cs_entries st0))%nat ->
+  ~ In (N.to_nat en) (gdie_ids g) ->
   OpWr.entry_offset dbg (Some (ouo uoff (cs_entries st))) en = Err WUnsupportedExpressionForwardReference.
 Proof. exact entry_offset_orphan. Qed.
 
@@ -743,8 +745,10 @@ Proof. vm_compute. repeat split; reflexivity. Qed.
 Example exprloc_forward_ref_ex :
   gav_size true gx_enc false 2 (ouo 0 [11; 20; 0; 0]) (GExpr [OpWr.WoUConst 1; OpWr.WoDerefType false 4 3]) =
     Err WUnsupportedExpressionForwardReference /\
+  gav_size true gx_enc false 2 (ouo 0 [11; 20; 0; 0]) (GExpr [OpWr.WoUConst 1; OpWr.WoDerefType false 4 7]) =
+    Err WUnsupportedExpressionForwardReference /\
   gav_size true gx_enc false 2 (ouo 0 [11; 20; 0; 0]) (GExpr [OpWr.WoUConst 1; OpWr.WoCall 3]) = Ok 7.
-Proof. vm_compute. split; reflexivity. Qed.
+Proof. vm_compute. repeat split; reflexivity. Qed.
 
 Check exprloc_attr_size_write : forall dbg cx pos v ops fx, gav_write dbg cx pos v = Ok (ops, fx) -> gexpr_ok v ->
   ops_len ops < 2 ^ 64 -> gav_size dbg (wc_enc cx) (wc_be cx) (wc_lpv cx) (cx_uo cx) v = Ok (ops_len ops).
